@@ -87,9 +87,22 @@ uint32_t cop_serialize_value(const NanoValue *val, uint8_t *buf, uint32_t buf_si
     return pos;
 }
 
+/* Nesting accepted in a value received from the peer; deeper input is undecodable
+ * (the recursion below would otherwise be bounded only by the C stack). */
+#define COP_MAX_VALUE_DEPTH 64
+
+static uint32_t deserialize_value_at_depth(const uint8_t *buf, uint32_t buf_size,
+                                           NanoValue *out, VmHeap *heap, int depth);
+
 uint32_t cop_deserialize_value(const uint8_t *buf, uint32_t buf_size,
                                NanoValue *out, VmHeap *heap) {
+    return deserialize_value_at_depth(buf, buf_size, out, heap, 0);
+}
+
+static uint32_t deserialize_value_at_depth(const uint8_t *buf, uint32_t buf_size,
+                                           NanoValue *out, VmHeap *heap, int depth) {
     if (buf_size < 1) return 0;
+    if (depth > COP_MAX_VALUE_DEPTH) { *out = val_void(); return 0; }
     uint8_t tag = buf[0];
     uint32_t pos = 1;
 
@@ -147,8 +160,8 @@ uint32_t cop_deserialize_value(const uint8_t *buf, uint32_t buf_size,
         VmArray *arr = vm_array_new(heap, etype, count > 0 ? count : 4);
         for (uint32_t i = 0; i < count; i++) {
             NanoValue elem;
-            uint32_t n = cop_deserialize_value(buf + pos, buf_size - pos,
-                                                &elem, heap);
+            uint32_t n = deserialize_value_at_depth(buf + pos, buf_size - pos,
+                                                    &elem, heap, depth + 1);
             if (n == 0) { *out = val_void(); return 0; }
             pos += n;
             vm_array_push(arr, elem);
